@@ -271,6 +271,47 @@ def observer_runs(cx, tier):
         shutil.rmtree(d, ignore_errors=True)
 
 
+def half_read_runs(cx, tier):
+    """a reader that has the destination open and has read half of it while a complete save takes place must end up with
+    exactly the old or exactly the new bytes; the destination is a regular file or a symbolic link to one"""
+    combos = [("xlsx", "small"), ("xlsx", "large"), ("xlsx_light", "edge"), ("csv", "small")] + ([("password", "small"), ("csv", "large"), ("xlsx_light", "large")] if tier == "thorough" else [])
+    for api, size in combos:
+        old, new, plain = reference(cx, api, size)
+        for kind in ("regular", "symlink"):
+            d = os.path.join(cx.work, "half-%s-%s-%s" % (api, size, kind))
+            shutil.rmtree(d, ignore_errors=True)
+            os.makedirs(d)
+            dest = os.path.join(d, "dest.%s" % EXT[api])
+            if kind == "symlink":
+                real = os.path.join(d, "real.%s" % EXT[api])
+                with open(real, "wb") as f:
+                    f.write(old)
+                os.symlink(real, dest)
+            else:
+                with open(dest, "wb") as f:
+                    f.write(old)
+            with open(dest, "rb") as rd:
+                first = rd.read(len(old) // 2)
+                st, msg = run_save(api, size, "B", dest)
+                rest = rd.read()
+            seen = first + rest
+            cx.points += 1
+            cx.distinct.add(("half-read", api, size, kind))
+            cx.count("injector.half-read-" + kind)
+            where = "%s/%s half-read destination=%s" % (api, size, kind)
+            if st != "ok":
+                cx.div("healthy-save-failed:%s" % api, "%s: %s %s" % (where, st, msg[:200]), {"injector": "half-read"})
+            elif seen != old and not (api.startswith("password") and False) and not is_complete_new(api, seen, new, plain):
+                cx.div("reader-sees-mixed-file:%s" % api, "%s: a reader that had read half of the old file ended up with %d bytes that are neither the old (%d) nor the new file (%d)" % (where, len(seen), len(old), len(new)), {"injector": "half-read"})
+            else:
+                after = open(dest, "rb").read()
+                if not is_complete_new(api, after, new, plain):
+                    cx.div("reports-success-with-incomplete-destination:%s" % api, "%s: returned Ok but the destination holds %d of %d bytes" % (where, len(after), len(new)), {"injector": "half-read"})
+                else:
+                    cx.count("outcome.half-read-consistent")
+            shutil.rmtree(d, ignore_errors=True)
+
+
 def check(work, tier, seed):
     cx = Ctx(work, seed)
     if not os.path.exists(SHIM):
@@ -278,6 +319,7 @@ def check(work, tier, seed):
     enumerate_faults(cx, tier)
     kill_runs(cx, tier)
     observer_runs(cx, tier)
+    half_read_runs(cx, tier)
     return cx
 
 
